@@ -381,6 +381,35 @@ func buildCanon(p *Program) {
 				prints = append(prints, cf.Print)
 			}
 			if len(cands) == 0 {
+				// a function turned into a method on its first parameter (or the reverse): same parameters once the
+				// receiver is counted as the first one
+				for _, cf := range cp.Funcs {
+					if baseFunc[cf.Key] || taken[cf.Key] || flatSig(cf.Sig) != flatSig(bf.Sig) {
+						continue
+					}
+					cands = append(cands, cf)
+					prints = append(prints, cf.Print)
+				}
+			}
+			if len(cands) == 0 {
+				// the same name with the same number of parameters (receiver counted), e.g. a function that took a
+				// *Template and now is a method of the name space it only used
+				base := bf.Key[strings.LastIndex(bf.Key, ".")+1:]
+				for _, cf := range cp.Funcs {
+					if baseFunc[cf.Key] || taken[cf.Key] || cf.Key[strings.LastIndex(cf.Key, ".")+1:] != base {
+						continue
+					}
+					if strings.Count(flatSig(cf.Sig), ",") != strings.Count(flatSig(bf.Sig), ",") {
+						continue
+					}
+					cands = append(cands, cf)
+					prints = append(prints, cf.Print)
+				}
+				if len(cands) != 1 {
+					cands, prints = nil, nil
+				}
+			}
+			if len(cands) == 0 {
 				continue
 			}
 			if i := pickBest(bf.Print, prints); i >= 0 {
@@ -527,4 +556,20 @@ func cname(x interface{ Object() types.Object }) string {
 		return canonName(v.Object())
 	}
 	return ""
+}
+
+// flatSig: a signature with the receiver counted as the first parameter.
+func flatSig(s string) string {
+	if strings.HasPrefix(s, "(") {
+		return s
+	}
+	i := strings.Index(s, " (")
+	if i < 0 {
+		return s
+	}
+	recv, rest := s[:i], s[i+2:]
+	if strings.HasPrefix(rest, ")") {
+		return "(" + recv + rest
+	}
+	return "(" + recv + "," + rest
 }
